@@ -120,6 +120,14 @@ pub fn scenario(idx: usize, seed: u64, max_body: usize, max_conc: usize) -> Scen
                 q.max_concurrent_bidi_streams = Some(rng.gen_range(1..20));
             }
             c.config.quic = Some(q);
+            // local default deadlines far beyond the scenario's horizon: they must not change what
+            // the handler sees of the request
+            if rng.gen_bool(0.5) {
+                c.config.inbound_request_timeout_ms = Some(rng.gen_range(3_600_000..7_200_000));
+            }
+            if rng.gen_bool(0.3) {
+                c.config.outbound_request_timeout_ms = Some(rng.gen_range(3_600_000..7_200_000));
+            }
             nodes.push(w.start_node(c).unwrap());
         }
         // connect a chain 0-1(-2)
@@ -156,9 +164,19 @@ pub fn scenario(idx: usize, seed: u64, max_body: usize, max_conc: usize) -> Scen
             total += req_len + resp_len;
             max_seen = max_seen.max(req_len).max(resp_len);
             let status = *[200u16, 200, 200, 400, 404, 408, 429, 500, 505, 520].choose(&mut rng).unwrap();
+            let mut hdrs = gen_headers(&mut rng, 64);
+            match rng.gen_range(0..12) {
+                // far-away deadlines in every spelling a caller may use, and unparsable ones
+                0 => { hdrs.insert("timeout".into(), "7200000000000".into()); }
+                1 => { hdrs.insert("timeout".into(), "+7200000000000".into()); }
+                2 => { hdrs.insert("timeout".into(), "0007200000000000".into()); }
+                3 => { hdrs.insert("timeout".into(), u64::MAX.to_string()); }
+                4 => { hdrs.insert("timeout".into(), ["never", "", "18446744073709551616", "7200s"].choose(&mut rng).unwrap().to_string()); }
+                _ => {}
+            }
             let spec = RpcSpec {
                 route: gen_route(&mut rng),
-                headers: gen_headers(&mut rng, 64),
+                headers: hdrs,
                 body: gen_bytes(seed.wrapping_add(i as u64), req_len),
                 script: Some(Script {
                     delay_us: if rng.gen_bool(0.3) { 0 } else { rng.gen_range(0..5_000_000) },
